@@ -51,5 +51,11 @@ m("c01-n-reorder-header", "N", None, None,
     "\t\tdn_seq = (b32_8to5(in[2]) & 7);\n\t\tup_frag = ((b32_8to5(in[1]) & 3) << 2) | ((b32_8to5(in[2]) >> 3) & 3);\n\t\tup_seq = (b32_8to5(in[1]) >> 2) & 7;", 1)])
 m("c01-n-rename", "N", None, None,
   [(K, "\tinlen = read;\n\tcompress2((uint8_t*)out, &outlen, (uint8_t*)in, inlen, 9);", "\tcompress2((uint8_t*)out, &outlen, (uint8_t*)in, read, 9);", 1)])
+m("c01-tun-buffer-mtu", "B", "C01.R7", "tunnel_tun",
+  [(K, "\tchar out[64*1024];\n\tchar in[64*1024];", "\tchar out[64*1024];\n\tchar in[1500];", 1)], "frames of MTU 1497..1500 are cut by read()")
+m("c01-srv-tun-capacity", "B", "C01.R7", "tunnel_tun",
+  [(S, "\tif ((read = read_tun(tun_fd, in, sizeof(in))) <= 0)", "\tif ((read = read_tun(tun_fd, in, 1500)) <= 0)", 1)])
+m("c01-n-tun-buffer-2k", "N", None, None,
+  [(K, "\tchar out[64*1024];\n\tchar in[64*1024];", "\tchar out[64*1024];\n\tchar in[2048];", 1)], "2048 >= 1500 + 4")
 json.dump(cat, open(os.path.join(HERE, "..", "cat_c01.json"), "w"), indent=1)
 print(len(cat), "variants")
